@@ -438,3 +438,348 @@ Proof.
     + intros x. unfold abs, m_del. rewrite Hloose. unfold packed_val, packed_lines. cbn [packed]. rewrite ?EP.
       destruct (beqb x n); reflexivity.
 Qed.
+
+(* ---------------------------------------------------------------- the loose walk *)
+Definition loose_list (l : list (bytes * bytes)) : list (bytes * refval) :=
+  map (fun e => (fst e, parse_c (snd e))) (filter (fun e => under refsDir (fst e)) l).
+
+Lemma under_listed p : under refsDir p = true -> listed p = true.
+Proof. unfold listed. intros ->. apply orb_true_r. Qed.
+
+Lemma walk_files_ok l : forallb file_okb l = true -> walk_files l = Ok (loose_list l).
+Proof.
+  induction l as [|[p c] l IH]; intros H; [reflexivity|].
+  cbn [forallb] in H. apply andb_true_iff in H as [He H]. cbn [walk_files].
+  unfold loose_list. cbn [filter fst]. destruct (under refsDir p) eqn:EU.
+  - unfold file_okb in He. cbn [fst snd] in He. rewrite (under_listed p EU) in He.
+    destruct c as [|c0 c']; [discriminate|]. cbn [read_ref_content]. rewrite IH by assumption.
+    reflexivity.
+  - auto.
+Qed.
+
+Lemma existsb_beqb_in (n : bytes) l : existsb (beqb n) l = true <-> In n l.
+Proof.
+  split.
+  - intros H. apply existsb_exists in H as [x [Hx E]]. apply beqb_eq in E. now subst.
+  - intros H. apply existsb_exists. exists n. split; [assumption|apply beqb_refl].
+Qed.
+
+Lemma loose_list_in l n v : nodup_keys l = true ->
+  (In (n, v) (loose_list l) <-> under refsDir n = true /\ exists c, lookup n l = Some c /\ v = parse_c c).
+Proof.
+  intros Hnd. unfold loose_list. rewrite in_map_iff. split.
+  - intros [[p c] [E Hin]]. cbn [fst snd] in E. injection E as E1 E2. subst p v.
+    apply filter_In in Hin as [Hin Hu]. cbn [fst] in Hu. split; [assumption|].
+    exists c. split; [now apply lookup_in|reflexivity].
+  - intros [Hu [c [Hk ->]]]. exists (n, c). split; [reflexivity|].
+    apply filter_In. split; [now apply in_lookup|assumption].
+Qed.
+
+Lemma loose_names_in l n : nodup_keys l = true ->
+  (In n (map fst (loose_list l)) <-> under refsDir n = true /\ exists c, lookup n l = Some c).
+Proof.
+  intros Hnd. rewrite in_map_iff. split.
+  - intros [[m v] [E Hin]]. cbn in E. subst m. apply (loose_list_in l n v Hnd) in Hin as [Hu [c [Hk _]]].
+    split; [assumption|now exists c].
+  - intros [Hu [c Hk]]. exists (n, parse_c c). split; [reflexivity|].
+    apply loose_list_in; [assumption|]. split; [assumption|]. now exists c.
+Qed.
+
+(* a packed entry is always a hash reference with a listed name *)
+Lemma find_packed_line n v lines : find_packed n lines = Ok (Some v) ->
+  exists l, In l lines /\ process_line l = Some (Some (n, v)).
+Proof.
+  induction lines as [|l r IH]; [discriminate|]. cbn [find_packed].
+  destruct (process_line l) as [[[m w]|]|] eqn:EP; [| |discriminate].
+  - destruct (beqb m n) eqn:E.
+    + apply beqb_eq in E. subst m. intros H. injection H as ->. exists l. split; [now left|assumption].
+    + intros H. destruct (IH H) as [l' [Hin Hp]]. exists l'. split; [now right|assumption].
+  - intros H. destruct (IH H) as [l' [Hin Hp]]. exists l'. split; [now right|assumption].
+Qed.
+
+Lemma packed_entry_ok s n v : packed_okb (packed s) = true -> packed_val s n = Some v ->
+  under refsDir n = true /\ name_clean n = true /\ val_okb v = true.
+Proof.
+  intros Hp Hv. unfold packed_val in Hv.
+  destruct (find_packed n (packed_lines s)) as [[w|]|] eqn:EF; try discriminate. injection Hv as ->.
+  destruct (find_packed_line _ _ _ EF) as [l [Hin Hl]].
+  unfold packed_okb, packed_lines in *. destruct (packed s) as [b|]; [|contradiction].
+  apply andb_true_iff in Hp as [_ Hp]. eapply forallb_forall in Hp; eauto.
+  unfold line_okb in Hp. rewrite Hl in Hp. apply andb_true_iff in Hp as [Hp H3].
+  now apply andb_true_iff in Hp as [H1 H2].
+Qed.
+
+(* ---------------------------------------------------------------- Refs *)
+Lemma head_not_under : under refsDir HEADp = false.
+Proof. reflexivity. Qed.
+
+Lemma under_not_head n : under refsDir n = true -> beqb n HEADp = false.
+Proof.
+  intros H. destruct (beqb n HEADp) eqn:E; [|reflexivity]. apply beqb_eq in E. subst n. discriminate.
+Qed.
+
+Lemma list_refs_spec s : wfb s = true ->
+  exists l, list_refs s = Ok l /\
+    forall n v, In (n, v) l <-> (listed n = true /\ abs s n = Some v).
+Proof.
+  intros Hw. destruct (wfb_parts s Hw) as [Hnd [Hf [Hr [Hh Hp]]]].
+  pose proof (packed_ok_parse s Hp) as Hap.
+  unfold list_refs.
+  (* HEAD *)
+  assert (Hhd : exists hd, (match read_ref_file (fs s) HEADp with
+                            | RVal v => Ok [(HEADp, v)] | RNoEnt => Ok [] | RErr e => Er e end) = Ok hd /\
+                forall n v, In (n, v) hd <-> (n = HEADp /\ loose_val s HEADp = Some v)).
+  { unfold read_ref_file, stat, loose_val. destruct (lookup HEADp (files (fs s))) as [c|] eqn:EL.
+    - destruct (file_ok_lookup s HEADp c Hf eq_refl EL) as [c0 [c' ->]]. cbn [read_ref_content].
+      eexists. split; [reflexivity|]. intros n v. cbn [In]. split.
+      + intros [E|[]]. injection E as <- <-. auto.
+      + intros [-> E]. injection E as <-. now left.
+    - rewrite Hh. change (file_above (fs s) HEADp) with false. cbv iota.
+      exists []. split; [reflexivity|]. intros n v. split; [contradiction|intros [_ E]; discriminate]. }
+  destruct Hhd as [hd [-> Hhd]].
+  unfold walk_refs. rewrite Hr, walk_files_ok by assumption.
+  set (loose := loose_list (files (fs s))).
+  assert (Hpk : exists pk, (match packed s with
+                            | None => Ok []
+                            | Some b => packed_all (scan_lines b) (map fst loose) [] end) = Ok pk /\
+                forall n v, In (n, v) pk <-> (~ In n (map fst loose) /\ packed_val s n = Some v)).
+  { unfold packed_val, packed_lines in *. destruct (packed s) as [b|].
+    - rewrite packed_all_first by assumption. cbn [rev app]. eexists. split; [reflexivity|].
+      intros n v. rewrite first_occ_in by assumption. split.
+      + intros [Hs Hfd]. rewrite Hfd. split; [|reflexivity]. intros Hin. apply existsb_beqb_in in Hin. congruence.
+      + intros [Hs Hfd]. split.
+        * destruct (existsb (beqb n) (map fst loose)) eqn:E; [|reflexivity]. apply existsb_beqb_in in E. contradiction.
+        * destruct (find_packed_total n _ Hap) as [r Er]. rewrite Er in *. now rewrite Hfd.
+    - exists []. split; [reflexivity|]. intros n v. split; [contradiction|intros [_ E]; discriminate]. }
+  destruct Hpk as [pk [-> Hpk]].
+  eexists. split; [reflexivity|]. intros n v. rewrite !in_app_iff, Hhd, Hpk.
+  unfold loose. rewrite (loose_list_in _ n v Hnd), (loose_names_in _ n Hnd).
+  unfold abs, listed. split.
+  - intros [[-> Hl]|[[Hu [c [Hk ->]]]|[Hnl Hpv]]].
+    + rewrite beqb_refl, Hl. auto.
+    + rewrite Hu, orb_true_r. split; [reflexivity|]. unfold loose_val. rewrite Hk.
+      destruct (file_ok_lookup s n c Hf (under_listed n Hu) Hk) as [c0 [c' ->]]. reflexivity.
+    + destruct (packed_entry_ok s n v Hp Hpv) as [Hu _]. rewrite Hu, orb_true_r. split; [reflexivity|].
+      assert (Hlv : loose_val s n = None).
+      { unfold loose_val. destruct (lookup n (files (fs s))) as [c|] eqn:EL; [|reflexivity].
+        exfalso. apply Hnl. split; [assumption|now exists c]. }
+      now rewrite Hlv.
+  - intros [Hl Ha]. destruct (loose_val s n) as [w|] eqn:ELV.
+    + injection Ha as ->. unfold loose_val in ELV.
+      destruct (lookup n (files (fs s))) as [[|c0 c']|] eqn:EL; try discriminate. injection ELV as <-.
+      apply orb_true_iff in Hl as [Hl|Hl].
+      * apply beqb_eq in Hl. subst n. left. split; [reflexivity|]. unfold loose_val. now rewrite EL.
+      * right. left. split; [assumption|]. now exists (c0 :: c').
+    + right. right. split; [|assumption]. intros [Hu [c Hk]].
+      destruct (file_ok_lookup s n c Hf (under_listed n Hu) Hk) as [c0 [c' ->]].
+      unfold loose_val in ELV. rewrite Hk in ELV. discriminate.
+Qed.
+
+(* ---------------------------------------------------------------- PackRefs *)
+Lemma has_prefix_mem p s c : has_prefix p s = true -> mem c p = true -> mem c s = true.
+Proof.
+  revert s. induction p as [|x p IH]; intros s H Hc; [discriminate|].
+  destruct s as [|y s]; [discriminate|]. cbn [has_prefix] in H. apply andb_true_iff in H as [Hx H].
+  apply N.eqb_eq in Hx. subst y. cbn [mem existsb] in *. apply orb_true_iff in Hc as [Hc|Hc].
+  - now rewrite Hc.
+  - fold (mem c p) in Hc. fold (mem c s). rewrite (IH s H Hc). apply orb_true_r.
+Qed.
+
+Lemma process_line_hash l n v : process_line l = Some (Some (n, v)) -> exists h f, v = VHash h f.
+Proof.
+  unfold process_line. destruct l as [|c l']; [discriminate|].
+  destruct ((c =? 35) || (c =? 94)); [discriminate|].
+  destruct (split_on 32 (c :: l')) as [|w0 [|w1 [|w2 r]]] eqn:ES; try discriminate.
+  intros H. injection H as <- <-.
+  assert (H0 : mem 32 w0 = false) by (apply (split_in_nosep 32 (c :: l')); rewrite ES; now left).
+  unfold ref_from_strings. destruct (has_prefix symrefPrefix w0) eqn:EP.
+  - assert (mem 32 w0 = true); [|congruence]. apply (has_prefix_mem symrefPrefix); [assumption|reflexivity].
+  - unfold new_hash. destruct (decode_hex w0); eauto.
+Qed.
+
+Lemma assoc_first_occ lines x : all_parse lines = true -> forall seen,
+  existsb (beqb x) seen = false ->
+  assoc_h x (first_occ lines seen) = match find_packed x lines with Ok r => r | Er _ => None end.
+Proof.
+  induction lines as [|l r IH]; intros H seen Hs; [reflexivity|].
+  cbn in H. apply andb_true_iff in H as [Hl H]. unfold parses in Hl. cbn [first_occ find_packed].
+  destruct (process_line l) as [[[m w]|]|] eqn:EP; [|auto|discriminate].
+  destruct (process_line_hash _ _ _ EP) as [h [f ->]].
+  destruct (beqb m x) eqn:Emx.
+  - apply beqb_eq in Emx. subst m. rewrite Hs. cbn [assoc_h is_hash_ref snd andb]. now rewrite beqb_refl.
+  - destruct (existsb (beqb m) seen) eqn:Es; [auto|].
+    cbn [assoc_h is_hash_ref snd andb]. rewrite Emx. apply IH; [assumption|].
+    cbn [existsb]. now rewrite beqb_sym, Emx, Hs.
+Qed.
+
+Definition is_hash (v : refval) : bool := match v with VHash _ _ => true | VSym _ => false end.
+
+Lemma assoc_loose_none x l : existsb (fun e => beqb x (fst e)) l = false -> assoc_h x (loose_list l) = None.
+Proof.
+  induction l as [|[q d] l IH]; intros H; [reflexivity|]. cbn [existsb fst] in H.
+  apply orb_false_iff in H as [Hq H]. unfold loose_list. cbn [filter fst].
+  destruct (under refsDir q); [|now apply IH]. cbn [map assoc_h fst snd].
+  rewrite (beqb_sym q x), Hq, andb_false_r. now apply IH.
+Qed.
+
+Lemma assoc_loose x l : nodup_keys l = true ->
+  assoc_h x (loose_list l) =
+  match lookup x l with
+  | Some c => if under refsDir x && is_hash (parse_c c) then Some (parse_c c) else None
+  | None => None
+  end.
+Proof.
+  induction l as [|[q d] l IH]; intros Hn; [reflexivity|].
+  cbn in Hn. apply andb_true_iff in Hn as [Hq Hn]. apply negb_true_iff in Hq.
+  cbn [lookup]. destruct (beqb x q) eqn:E.
+  - apply beqb_eq in E. subst q. unfold loose_list. cbn [filter fst].
+    destruct (under refsDir x) eqn:EU.
+    + cbn [map assoc_h fst snd andb]. rewrite beqb_refl, andb_true_r.
+      unfold is_hash_ref, is_hash. cbn [snd]. destruct (parse_c d); [reflexivity|].
+      now apply assoc_loose_none.
+    + cbn [andb]. now apply assoc_loose_none.
+  - unfold loose_list. cbn [filter fst]. destruct (under refsDir q).
+    + cbn [map assoc_h fst snd]. rewrite (beqb_sym q x), E, andb_false_r. now apply IH.
+    + now apply IH.
+Qed.
+
+Lemma name_clean_no c n : name_clean n = true -> (c <=? 32) = true -> mem c n = false.
+Proof.
+  intros H Hc. apply (mem_forallb_false (fun c => negb ((c <=? 32) || (c =? 127)))); [assumption|].
+  now rewrite Hc.
+Qed.
+
+(* a loose or packed entry of a well-formed store can be written to packed-refs *)
+Definition entry_okb (e : bytes * refval) : bool :=
+  under refsDir (fst e) && name_clean (fst e) && val_okb (snd e).
+
+Lemma entry_renderable e : entry_okb e = true -> renderable e = true.
+Proof.
+  destruct e as [n v]. unfold entry_okb, renderable. cbn [fst snd]. intros H.
+  apply andb_true_iff in H as [H Hv]. apply andb_true_iff in H as [_ Hc].
+  destruct v as [h f|t]; [|reflexivity]. cbn [val_okb] in Hv. rewrite Hv.
+  rewrite (name_clean_no 32 n Hc) by reflexivity. reflexivity.
+Qed.
+
+Lemma rendered_lines_ok L : forallb entry_okb L = true ->
+  forallb line_clean (flat_map packed_line L) = true /\ forallb line_okb (flat_map packed_line L) = true.
+Proof.
+  induction L as [|[n v] L IH]; intros H; [split; reflexivity|].
+  cbn [forallb] in H. apply andb_true_iff in H as [He H]. destruct (IH H) as [IH1 IH2].
+  cbn [flat_map]. rewrite !forallb_app, IH1, IH2, !andb_true_r.
+  unfold entry_okb in He. cbn [fst snd] in He. apply andb_true_iff in He as [He Hv].
+  apply andb_true_iff in He as [Hu Hc]. unfold packed_line. cbn [fst snd].
+  destruct v as [h f|t]; [|split; reflexivity]. cbn [val_okb] in Hv. cbn [forallb]. rewrite !andb_true_r.
+  pose proof (hash_string_hexchars h f Hv) as Hx. split.
+  - unfold line_clean. unfold mem. rewrite !existsb_app. cbn [existsb].
+    fold (mem 10 (hash_string h f)) (mem 10 n) (mem 13 (hash_string h f)) (mem 13 n).
+    rewrite (mem_forallb_false hexchar 10 _ Hx) by reflexivity.
+    rewrite (mem_forallb_false hexchar 13 _ Hx) by reflexivity.
+    rewrite (name_clean_no 10 n Hc), (name_clean_no 13 n Hc) by reflexivity. reflexivity.
+  - unfold line_okb. rewrite process_line_render; [|assumption|now apply (name_clean_no 32 n Hc)].
+    rewrite Hu, Hc. exact Hv.
+Qed.
+
+Lemma loose_entries_ok l : forallb file_okb l = true -> forallb entry_okb (loose_list l) = true.
+Proof.
+  intros H. apply forallb_forall. intros [n v] Hin. unfold loose_list in Hin.
+  apply in_map_iff in Hin as [[p c] [E Hin]]. cbn [fst snd] in E. injection E as E1 E2. subst n v.
+  apply filter_In in Hin as [Hin Hu]. cbn [fst] in Hu.
+  eapply forallb_forall in H; eauto. unfold file_okb in H. cbn [fst snd] in H.
+  rewrite (under_listed p Hu) in H. apply andb_true_iff in H as [H Hc]. apply andb_true_iff in H as [_ Hv].
+  unfold entry_okb. cbn [fst snd]. now rewrite Hu, Hc, Hv.
+Qed.
+
+Lemma first_occ_entries_ok lines : forallb line_okb lines = true -> forall seen,
+  forallb entry_okb (first_occ lines seen) = true.
+Proof.
+  induction lines as [|l r IH]; intros H seen; [reflexivity|].
+  cbn [forallb] in H. apply andb_true_iff in H as [Hl H]. cbn [first_occ].
+  unfold line_okb in Hl. destruct (process_line l) as [[[m w]|]|]; [|auto|discriminate].
+  destruct (existsb (beqb m) seen); [auto|]. cbn [forallb]. rewrite IH by assumption.
+  unfold entry_okb. cbn [fst snd]. now rewrite Hl.
+Qed.
+
+Lemma pack_refs_spec s : wfb s = true ->
+  let (s', r) := pack_refs s in r = Ok tt /\ wfb s' = true /\ abs_eq (abs s') (abs s).
+Proof.
+  intros Hw. destruct (wfb_parts s Hw) as [Hnd [Hf [Hr [Hh Hp]]]].
+  unfold pack_refs, walk_refs. rewrite Hr, walk_files_ok by assumption.
+  set (b := match packed s with Some b => b | None => [] end).
+  set (loose := loose_list (files (fs s))).
+  (* the lines of the old file *)
+  assert (Hlines : scan_lines b = packed_lines s /\ forallb line_okb (scan_lines b) = true /\ mem 13 b = false).
+  { unfold b, packed_lines, packed_okb in *. destruct (packed s) as [b0|].
+    - apply andb_true_iff in Hp as [H13 Hlo]. apply negb_true_iff in H13. auto.
+    - repeat split; reflexivity. }
+  destruct Hlines as [Elines [Hlo H13]].
+  assert (Hap : all_parse (scan_lines b) = true).
+  { unfold all_parse. apply forallb_forall. intros l Hl. apply line_ok_parses. eapply forallb_forall in Hlo; eauto. }
+  assert (Hs0 : wfb {| fs := fs s; packed := Some b |} = true /\
+                abs_eq (abs {| fs := fs s; packed := Some b |}) (abs s)).
+  { split.
+    - unfold wfb. cbn [fs packed]. rewrite Hnd, Hf, Hr, Hh. cbn [negb andb]. unfold packed_okb. now rewrite H13, Hlo.
+    - intros x. unfold abs, loose_val, packed_val, packed_lines. cbn [fs packed]. now rewrite Elines. }
+  destruct loose as [|e0 L0] eqn:EL.
+  { split; [reflexivity|]. exact Hs0. }
+  rewrite <- EL. clear e0 L0 EL.
+  rewrite packed_all_first by assumption. cbn [rev app].
+  set (pk := first_occ (scan_lines b) (map fst loose)).
+  set (L := loose ++ pk).
+  set (gone := map fst (filter is_hash_ref loose)).
+  assert (HL : forallb entry_okb L = true).
+  { unfold L. rewrite forallb_app. unfold loose, pk.
+    now rewrite loose_entries_ok, first_occ_entries_ok. }
+  destruct (rendered_lines_ok L HL) as [Hcl Hok].
+  assert (Hren : forallb renderable L = true).
+  { apply forallb_forall. intros e He. apply entry_renderable. eapply forallb_forall in HL; eauto. }
+  set (files' := filter (fun e => negb (existsb (beqb (fst e)) gone)) (files (fs s))).
+  assert (Hk' : forall x, lookup x files' = if existsb (beqb x) gone then None else lookup x (files (fs s))).
+  { intros x. unfold files'. rewrite (lookup_filter (fun p => negb (existsb (beqb p) gone))).
+    now destruct (existsb (beqb x) gone). }
+  assert (Hgone : forall x c, lookup x (files (fs s)) = Some c ->
+            existsb (beqb x) gone = under refsDir x && is_hash (parse_c c)).
+  { intros x c Hk. destruct (under refsDir x && is_hash (parse_c c)) eqn:E.
+    - apply existsb_beqb_in. unfold gone. apply in_map_iff. exists (x, parse_c c). split; [reflexivity|].
+      apply andb_true_iff in E as [Eu Eh]. apply filter_In. split.
+      + apply loose_list_in; [assumption|]. split; [assumption|]. now exists c.
+      + unfold is_hash_ref. cbn [snd]. now destruct (parse_c c).
+    - destruct (existsb (beqb x) gone) eqn:Eg; [|reflexivity]. apply existsb_beqb_in in Eg.
+      unfold gone in Eg. apply in_map_iff in Eg as [[x' v] [Ex Hin]]. cbn in Ex. subst x'.
+      apply filter_In in Hin as [Hin Hh']. apply (loose_list_in _ x v Hnd) in Hin as [Hu [c' [Hk2 ->]]].
+      rewrite Hk in Hk2. injection Hk2 as <-. rewrite Hu in E. cbn [andb] in E.
+      unfold is_hash_ref in Hh'. cbn [snd] in Hh'. unfold is_hash in E. destruct (parse_c c); discriminate. }
+  assert (Hgone0 : forall x, lookup x (files (fs s)) = None -> existsb (beqb x) gone = false).
+  { intros x Hk. destruct (existsb (beqb x) gone) eqn:Eg; [|reflexivity]. apply existsb_beqb_in in Eg.
+    unfold gone in Eg. apply in_map_iff in Eg as [[x' v] [Ex Hin]]. cbn in Ex. subst x'.
+    apply filter_In in Hin as [Hin _]. apply (loose_list_in _ x v Hnd) in Hin as [_ [c' [Hk2 _]]]. congruence. }
+  split; [reflexivity|]. split.
+  - unfold wfb. cbn [fs packed files dirs]. fold files'.
+    unfold files'. rewrite nodup_filter, forallb_filter' by assumption. fold files'.
+    unfold is_file, is_dir. cbn [files dirs]. rewrite Hk'. unfold is_file in Hr.
+    replace (if existsb (beqb refsDir) gone then None else lookup refsDir (files (fs s))) with (@None bytes)
+      by (destruct (existsb (beqb refsDir) gone); [reflexivity|]; destruct (lookup refsDir (files (fs s))); [discriminate|reflexivity]).
+    unfold is_dir in Hh. rewrite Hh. cbn [negb andb]. now apply packed_ok_unlines.
+  - intros x. unfold abs.
+    assert (Epv : packed_val {| fs := {| files := files'; dirs := dirs (fs s) |};
+                               packed := Some (unlines (flat_map packed_line L)) |} x = assoc_h x L).
+    { unfold packed_val, packed_lines. cbn [packed]. rewrite scan_unlines by assumption.
+      now rewrite find_render. }
+    rewrite Epv. unfold loose_val at 1. cbn [fs files]. rewrite Hk'.
+    unfold L. rewrite assoc_h_app. unfold loose at 1. rewrite assoc_loose by assumption.
+    unfold loose_val. destruct (lookup x (files (fs s))) as [c|] eqn:Ek.
+    + rewrite (Hgone x c Ek).
+      destruct (under refsDir x) eqn:Eu.
+      * destruct (file_ok_lookup s x c Hf (under_listed x Eu) Ek) as [c0 [c' ->]].
+        cbn [andb]. destruct (is_hash (parse_c (c0 :: c'))); reflexivity.
+      * cbn [andb]. destruct c as [|c0 c']; [|reflexivity].
+        (* an empty file outside refs/: both sides fall through to packed-refs, whose names are below refs/ *)
+        unfold pk. rewrite assoc_first_occ; [| assumption |].
+        -- unfold packed_val. now rewrite Elines.
+        -- destruct (existsb (beqb x) (map fst loose)) eqn:E; [|reflexivity].
+           apply existsb_beqb_in in E. apply (loose_names_in _ x Hnd) in E as [Hu _]. congruence.
+    + rewrite (Hgone0 x Ek). unfold pk. rewrite assoc_first_occ; [| assumption |].
+      * unfold packed_val. now rewrite Elines.
+      * destruct (existsb (beqb x) (map fst loose)) eqn:E; [|reflexivity].
+        apply existsb_beqb_in in E. apply (loose_names_in _ x Hnd) in E as [_ [c Hk]]. congruence.
+Qed.
